@@ -108,6 +108,35 @@ def resolvePrefix (be : Backend) (ver : Nat) (val2 : Option (List Char)) : R Int
           | none => .error .key
         else .error .addrFormat
 
+/-- `'/' in val2` (a second slash; `False` when there is no prefix part) -/
+def secondSlash (val2 : Option (List Char)) : Bool :=
+  match val2 with
+  | some t => t.contains '/'
+  | none => false
+
+/-- the string branch of `parse_ip_network` after the split at the first '/':
+    address part (strict parse, else partial-address expansion for IPv4), prefix part, range
+    check, NOHOST -/
+def parseStrCore (be : Backend) (ver : Nat) (val1 : List Char) (val2 : Option (List Char)) (flags : Nat) : R (Nat × Nat) :=
+  let ip : R Addr :=
+    match ipAddress be val1 (some ver) INET_PTON with
+    | .ok a => .ok a
+    | .error .addrFormat =>
+      if ver = 4 then
+        match expandPartialAddress val1 with
+        | .ok expanded => ipAddress be expanded (some ver) INET_PTON
+        | .error e => .error e
+      else .error .addrFormat
+    | .error e => .error e
+  match ip with
+  | .error e => .error e
+  | .ok a =>
+    match resolvePrefix be ver val2 with
+    | .error e => .error e
+    | .ok prefixlen =>
+      if ¬ (0 ≤ prefixlen ∧ prefixlen ≤ (width ver : Int)) then .error .addrFormat
+      else applyNohost ver flags a.val prefixlen.toNat
+
 /-- `parse_ip_network(module, addr, implicit_prefix, flags)` for tuple and str arguments -/
 def parseIpNetwork (be : Backend) (ver : Nat) (arg : NetArg) (implicitPrefix : Bool) (flags : Nat) : R (Nat × Nat) :=
   match arg with
@@ -118,25 +147,7 @@ def parseIpNetwork (be : Backend) (ver : Nat) (arg : NetArg) (implicitPrefix : B
   | .str addr0 =>
     let addr := if implicitPrefix then cidrAbbrevToVerbose addr0 else addr0
     let (val1, val2) := splitSlash addr
-    if (match val2 with | some t => t.contains '/' | none => false) then .error .addrFormat else
-    let ip : R Addr :=
-      match ipAddress be val1 (some ver) INET_PTON with
-      | .ok a => .ok a
-      | .error .addrFormat =>
-        if ver = 4 then
-          match expandPartialAddress val1 with
-          | .ok expanded => ipAddress be expanded (some ver) INET_PTON
-          | .error e => .error e
-        else .error .addrFormat
-      | .error e => .error e
-    match ip with
-    | .error e => .error e
-    | .ok a =>
-      match resolvePrefix be ver val2 with
-      | .error e => .error e
-      | .ok prefixlen =>
-        if ¬ (0 ≤ prefixlen ∧ prefixlen ≤ (width ver : Int)) then .error .addrFormat
-        else applyNohost ver flags a.val prefixlen.toNat
+    if secondSlash val2 then .error .addrFormat else parseStrCore be ver val1 val2 flags
   | _ => .error .type_
 
 /-- `IPNetwork(addr, implicit_prefix, version, flags)` -/
